@@ -378,6 +378,23 @@ def check_symbols(ctx):
         calls = {A.call_name(c) for c in A.calls_in(fn)}
         # a parser that is handed over as a function object (a list of parsers tried in turn) counts as used
         calls |= {n_.id for n_ in ast.walk(fn) if isinstance(n_, ast.Name) and isinstance(n_.ctx, ast.Load) and n_.id in tm.functions}
+        # ... also when it goes through a helper that is not part of the module's known interface (a function that yields / returns the parsers)
+        from .. import normalise as _N
+        known_ = set(_N.known_names().get(tm.name, []))
+        todo_ = [c_ for c_ in calls if c_ in tm.functions and c_ not in known_]
+        seen_ = set()
+        while todo_:
+            h_ = todo_.pop()
+            if h_ in seen_:
+                continue
+            seen_.add(h_)
+            for n_ in ast.walk(tm.functions[h_]):
+                if isinstance(n_, ast.Name) and isinstance(n_.ctx, ast.Load) and n_.id in tm.functions:
+                    calls.add(n_.id)
+                    if n_.id not in known_:
+                        todo_.append(n_.id)
+                elif isinstance(n_, ast.Call) and isinstance(n_.func, ast.Attribute):
+                    calls.add(n_.func.attr)
         strict = sorted(c for c in calls if c in STRICT)
         uses_shared = any(c in calls for c in must_call)
         ctx.check("C17.Y", f"parser:{fname}:shared-integer-syntax", uses_shared and not strict,
